@@ -1103,3 +1103,131 @@ def oracle_join_cigar(line, out):
     if replay_cigar(runs, pj[0], rev) != pj:
         return f"replaying the HitEnum {cig} of a joined record does not give its listed pairs"
     return None
+
+
+# ---------------------------------------------------------------- secondary seeding stage
+def _ideal_bits(pos, res, start, n):
+    return [1 if any(start + i * res <= p < start + (i + 1) * res for p in pos) else 0 for i in range(n)]
+
+
+def oracle_seq(line, out):
+    """C16 for `SequenceGenerator.positionsToSequence`: bit i is set exactly when a label lies in a bin within the
+    blur radius of bin i (bins counted from `start`), and every label between start and end has its bin"""
+    op, kv = kv_of(line)
+    res, start, r = int(kv["res"]), int(kv["start"]), int(kv["blur"])
+    pos = ints(kv.get("POS", ""))
+    stop = None if kv["stop"] == "none" else int(kv["stop"])
+    if res < 1 or r < 0:
+        return None if out == "ERR ValueError" else "resolution < 1 / negative radius accepted"
+    if not stop and not pos:
+        return None
+    if out.startswith("ERR"):
+        return f"exception {out}"
+    bits = [int(c) for c in out]
+    n = len(bits)
+    v = _ideal_bits(pos, res, start, n)
+    for i in range(n):
+        want = 1 if any(v[j] for j in range(max(0, i - r), min(n, i + r + 1))) else 0
+        if bits[i] != want:
+            return f"bit {i} is {bits[i]}; labels within {r} bins of [{start + i * res},{start + (i + 1) * res}) say {want}"
+    stop_eff = stop if stop else pos[-1]
+    for p in pos:
+        if start <= p <= stop_eff and (p - start) // res >= n:
+            return f"label {p} in [start,end] has no bin (vector length {n})"
+    return None
+
+
+def oracle_xcorr(line, out):
+    """contract of scipy.signal.correlate(mode='valid', method='fft') on integer arrays"""
+    op, kv = kv_of(line)
+    r = [int(c) for c in kv.get("R", "")]
+    q = [int(c) for c in kv.get("Q", "")]
+    if not r or not q:
+        return None if out == "ERR IndexError" else f"empty operand gives {out}"
+    if out.startswith("ERR"):
+        return f"exception {out}"
+    a, b = (r, q) if len(q) <= len(r) else (q, r)
+    want = [sum(a[k + j] * b[j] for j in range(len(b))) for k in range(len(a) - len(b) + 1)]
+    if len(q) > len(r):
+        want = want[::-1]
+    return None if ints(out) == want else f"correlation {out} is not the sliding dot product {want}"
+
+
+def _peaks_by_definition(x, thr):
+    n = len(x)
+    out = []
+    m = max([0] + x)
+    i = 1
+    for l in range(1, n - 1):
+        if x[l - 1] >= x[l]:
+            continue
+        r = l
+        while r + 1 < n and x[r + 1] == x[l]:
+            r += 1
+        if r + 1 >= n or x[r + 1] > x[l]:
+            continue
+        p = (l + r) // 2
+        v = x[p]
+        lm = v
+        j = p
+        while j >= 0 and x[j] <= v:
+            lm = min(lm, x[j])
+            j -= 1
+        rm = v
+        j = p
+        while j < n and x[j] <= v:
+            rm = min(rm, x[j])
+            j += 1
+        prom = v - max(lm, rm)
+        if v >= thr and 20 * prom >= m:
+            out.append((p, v))
+    return out
+
+
+def oracle_findpeaks(line, out):
+    """contract of scipy.signal.find_peaks as `refine` calls it, from the definitions (plateau midpoints of strict
+    local maxima, height, prominence >= max/20)"""
+    op, kv = kv_of(line)
+    from fractions import Fraction
+    x = ints(kv.get("X", ""))
+    a = kv["thr"].split("/")
+    thr = Fraction(int(a[0]), int(a[1]) if len(a) > 1 else 1)
+    if out.startswith("ERR"):
+        return f"exception {out}"
+    got = [tuple(int(t) for t in e.split(":")) for e in out.split(",") if e]
+    want = _peaks_by_definition(x, thr)
+    return None if got == want else f"peaks {got} are not the local maxima {want} that satisfy height and prominence"
+
+
+def oracle_refine(line, out):
+    """what the properties say about the seeds `refine` returns, stated without the model:
+    (bin centre, C16) every reported position is the centre of a bin of the refinement window, i.e.
+        position = (peak - margin) + k*res + ceil(res/2) - 1 for an integer k >= 0;
+    (C06) when the query is a noise-free copy of consecutive reference labels with spacing >= 2 kb whose true
+        diagonal lies inside the window, a seed within 200 bp of the true diagonal is reported (default
+        secondary parameters: bins of 100 bp, blur 4)"""
+    op, kv = kv_of(line)
+    res, bl, margin, thr = kv["sec"].split(",")
+    res, bl, margin = int(res), int(bl), int(margin)
+    peak = int(kv["peak"])
+    if out.startswith("ERR"):
+        return None          # an empty window raises in scipy; whether a run can get there is C07's business
+    body = out.split(" ", 1)[1] if " " in out else ""
+    ents = [e for e in body.split(" ")[0].split(",") if e]
+    got = [tuple(int(t) for t in e.split(":")) for e in ents]
+    start = peak - margin
+    adj = -(-res // 2) - 1
+    for p, h in got:
+        if (p - start - adj) % res != 0 or (p - start - adj) < 0:
+            return f"seed {p} is not the centre of a bin of the window starting at {start} (resolution {res})"
+    if "truth" in kv and kv["sec"] == "100,4,16000,27" and not out.startswith("n=many"):
+        truth = int(kv["truth"])
+        a, b, c, d = kv["REF"].split(":")
+        R = [int(t) for t in d.split(",")]
+        a, qlen, c, d = kv["QRY"].split(":")
+        Q = [int(t) for t in d.split(",")]
+        sp = min([R[i + 1] - R[i] for i in range(len(R) - 1)] + [10 ** 9])
+        if sp >= 2000 and len(Q) >= 15 and abs(truth - peak) <= 2000 and truth >= R[0]:
+            if not any(abs(p - truth) <= 200 for p, h in got):
+                return f"no seed within 200 bp of the true diagonal {truth}: seeds {[p for p, h in got]}"
+    return None
